@@ -109,7 +109,7 @@ func (g *G) genDoc(did string, auth []int) *didtypes.DIDDocument {
 		// malformed, which stateless validation has to notice wherever it sits
 		n := 8 + g.intn("extra-methods", 24)
 		bad := -1
-		if g.chance("malformed-method", 50) {
+		if !g.wellFormedOnly && g.chance("malformed-method", 50) {
 			bad = n - 1 - g.intn("malformed-from-end", 4)
 		}
 		for i := 0; i < n; i++ {
@@ -566,7 +566,9 @@ func (g *G) genDidGenesis(cdc codec.JSONCodec, keys []world.DIDKey, consistent .
 		}
 		saved := g.W
 		g.W = &world.World{Keys: keys}
+		g.wellFormedOnly = true // a genesis section that passes the module's own validation
 		doc := g.genDoc(about, []int{g.intn("gen-auth", 6)})
+		g.wellFormedOnly = false
 		g.W = saved
 		seq := uint64(g.intn("gen-seq", 3))
 		if g.chance("gen-seq-boundary", 25) {
